@@ -1,8 +1,46 @@
 import Lean.Data.Json
-/- stub: the C05 driver is not built yet -/
+import Glom.Spec.C05
+/-
+  C05 driver.  case: {"events":[["enter",parent,flagged,spec,target,tid,tlen|null,slen|null] | ["ok"] | ["err",e]…],
+                      "errors":[[e, text]…], "root_error":e, "width":w, "impl":{"trace": text}}
+-/
 namespace Glom.C05.Driver
-open Lean
+open Lean Glom.C05
 
-def run (_j : Json) : Except String Json := .error "property C05: driver not implemented yet"
+def optNat (j : Json) : Option Nat := match j with | .null => none | _ => j.getNat?.toOption
+
+def evOfJson (j : Json) : Except String Ev :=
+  match j with
+  | .arr #[.str "enter", p, .bool fl, .str sp, .str tg, tid, tl, sl] => do
+    return .enter (← p.getNat?) fl sp.toList tg.toList (← tid.getNat?) (optNat tl) (optNat sl)
+  | .arr #[.str "ok"] => pure .exitOk
+  | .arr #[.str "err", e] => do return .exitErr (← e.getNat?)
+  | _ => .error s!"bad event {j.compress}"
+
+def run (j : Json) : Except String Json := do
+  let evs ← (match j.getObjVal? "events" with
+    | .ok (.arr a) => a.toList.mapM evOfJson
+    | _ => throw "events missing")
+  let errs ← (match j.getObjVal? "errors" with
+    | .ok (.arr a) => a.toList.mapM (fun e => match e with
+        | .arr #[n, .str t] => do return ((← n.getNat?), t.toList)
+        | _ => throw "bad error entry")
+    | _ => throw "errors missing")
+  let rootError ← j.getObjValAs? Nat "root_error"
+  let width ← j.getObjValAs? Nat "width"
+  let impl ← (← j.getObjVal? "impl").getObjValAs? String "trace"
+  let errText := fun (e : Nat) => ((errs.find? (·.1 == e)).map (·.2)).getD "<unknown error>".toList
+  let model := traceText evs errText rootError width
+  let fs := replay evs
+  let rows := unpack fs 1
+  let branching := fs.toList.any (fun f => f.childErrors.length > 1)
+  let chained := fs.toList.any (·.noPy)
+  let holds := checkC05 evs errText rootError impl
+  let modelHolds := checkC05 evs errText rootError model
+  return Json.mkObj [("agree", model == impl), ("holds", holds), ("model_holds", modelHolds),
+    ("why", if holds then "" else "the trace does not begin with the root target / list the failing path in order / show the failing spec's target / show every failed branch"),
+    ("model", Json.mkObj [("trace", model)]),
+    ("branch", (if branching then "branching" else "linear") ++ (if chained then "+chain" else "") ++
+               s!"-rows{rows.length}")]
 
 end Glom.C05.Driver
